@@ -50,6 +50,9 @@ impl PriorityReceiver {
 	/// a `Stop` control message is returned and the `stop_timer` is `None`d.
 	///
 	/// This is used to implement stop's, restart's, and try-restart's graceful stopping logic.
+	///
+	/// Returns `None` once every queue is closed and empty (all [`Job`](super::Job) handles are
+	/// gone) and no timer is pending.
 	pub async fn recv(&mut self, stop_timer: &mut Option<Timer>) -> Option<ControlMessage> {
 		if stop_timer.as_ref().map_or(false, Timer::is_past) {
 			return stop_timer.take().map(|timer| timer.to_control());
@@ -63,20 +66,25 @@ impl PriorityReceiver {
 			return Some(message);
 		}
 
+		// `biased` so that when several queues have a message at the time we're woken, the
+		// highest priority wins; closed queues are skipped so the others can still be drained.
 		if let Some(timer) = stop_timer.clone() {
 			select! {
+				biased;
+				Some(message) = self.urgent.recv() => Some(message),
+				Some(message) = self.high.recv() => Some(message),
 				() = timer.to_sleep() => {
 					*stop_timer = None;
 					Some(timer.to_control())
 				}
-				message = self.urgent.recv() => message,
-				message = self.high.recv() => message,
 			}
 		} else {
 			select! {
-				message = self.urgent.recv() => message,
-				message = self.high.recv() => message,
-				message = self.normal.recv() => message,
+				biased;
+				Some(message) = self.urgent.recv() => Some(message),
+				Some(message) = self.high.recv() => Some(message),
+				Some(message) = self.normal.recv() => Some(message),
+				else => None,
 			}
 		}
 	}
